@@ -18,6 +18,8 @@
 (*                   (wexp1, wexp2) and a read is two steps (rexp1, rexp2); *)
 (*                   a reader that runs between the halves of a write sees  *)
 (*                   a torn value.                                          *)
+(*   <<"cfg", _>>    SecurityConfig.ECDHPublicKey of a configuration object  *)
+(*                   shared by concurrent handshakes (operation Handshake)  *)
 (* The immutable entry fields (id, addr, tag, lease, keyInfo, policy) are   *)
 (* written before the entry is published and only read afterwards; they     *)
 (* are not modelled.                                                        *)
@@ -37,6 +39,10 @@
 (*   "SweepSwapsMapSnapshot"         InvalidateExpired filters a snapshot   *)
 (*                                   taken under R and swaps it in under W  *)
 (*                                   (resurrects an invalidated id)         *)
+(*   "HandshakeWritesSharedConfig"   a client handshake stores its ECDH key *)
+(*                                   in the configuration object it shares  *)
+(*                                   with the other connections (today's    *)
+(*                                   client.ConnectAndAuthenticateWithConfig)*)
 (***************************************************************************)
 EXTENDS Integers, Sequences, FiniteSets, TLC, SessionCacheSeq
 
@@ -54,21 +60,24 @@ VARIABLES map, cmd, exp,      \* the real memory: c.sessions, c.commandMap, entr
           nextVer,            \* next object version per id
           cmuW, cmuR, emu,    \* c.mu writer / readers, e.mu holder per object
           th,                 \* per goroutine: current operation and program counter
+          cfgKey,             \* SecurityConfig.ECDHPublicKey of the ONE configuration object the handshakes share
           abs,                \* ghost: state of the sequential specification
           dead                \* ghost: id has been invalidated and not stored since
 
-vars == <<map, cmd, exp, nextVer, cmuW, cmuR, emu, th, abs, dead>>
+vars == <<map, cmd, exp, nextVer, cmuW, cmuR, emu, th, cfgKey, abs, dead>>
 
 Objs  == Ids \X (0..MaxVer)
 MapF  == <<"map", <<"-", 0>>>>
 ExpF(o) == <<"exp", o>>
+CfgF  == <<"cfg", <<"-", 0>>>>
 
 CacheOpsId  == {"Store", "Lookup", "LookupNE", "LookupCmd", "MapCmd", "Invalidate"}
 CacheOpsAll == {"Sweep", "Dump", "Size", "Clear"}
 EntryOps    == {"Renew", "IsExpired"}
+OtherOps    == {"Handshake"}
 
 Idle(n) == [op |-> "-", id |-> "-", o |-> NoObj, pc |-> "idle", scan |-> {}, snap |-> [i \in Ids |-> NoObj], rm |-> {},
-            tmp |-> <<"live", "live">>, res |-> "-", ares |-> "-", n |-> n]
+            tmp |-> <<"live", "live">>, key |-> "-", res |-> "-", ares |-> "-", n |-> n]
 
 SwapMode(t) == t.op = "Sweep" /\ "SweepSwapsMapSnapshot" \in Bug
 Class(t) == IF t[1] = "live" /\ t[2] = "live" THEN "live" ELSE "dead"
@@ -89,6 +98,7 @@ Init ==
   /\ cmuW = Nobody /\ cmuR = {} /\ emu = [o \in Objs |-> Nobody]
   /\ th = [g \in Gor |-> Idle(0)]
   /\ dead = [i \in Ids |-> FALSE]
+  /\ cfgKey = "-"
 
 -----------------------------------------------------------------------------
 (* locks *)
@@ -111,11 +121,13 @@ FirstLock(op) ==
     [] op \in {"Lookup", "LookupCmd", "Dump", "Size"} -> "R"
     [] op = "Renew"      -> IF "RenewWithoutEntryLock" \in Bug THEN "none" ELSE "E"
     [] op = "IsExpired"  -> "E"
+    [] op = "Handshake"  -> "none"
 FirstPc(op) ==
   CASE op \in {"Store", "MapCmd", "Invalidate", "Clear"} -> "wmap"
     [] op \in {"Lookup", "LookupCmd", "LookupNE", "Size", "Sweep", "Dump"} -> "rmap"
     [] op = "Renew" -> "wexp1"
     [] op = "IsExpired" -> "rexp1"
+    [] op = "Handshake" -> "hcopy"
 
 \* does this operation read the expiry of an entry under the entry lock?
 EntryLocked(op) ==
@@ -139,7 +151,7 @@ Begin(g) ==
                /\ cmuR' = IF l = "R" THEN cmuR \cup {g} ELSE cmuR
                /\ emu'  = IF l = "E" THEN [emu EXCEPT ![o] = g] ELSE emu
             /\ th' = [th EXCEPT ![g] = [Idle(th[g].n) EXCEPT !.op = op, !.id = i, !.o = o, !.pc = FirstPc(op)]]
-  /\ UNCHANGED <<map, cmd, exp, nextVer, abs, dead>>
+  /\ UNCHANGED <<map, cmd, exp, nextVer, abs, dead, cfgKey>>
 
 (* the single map write of Store / MapCommand / Invalidate / Clear *)
 WMap(g) ==
@@ -175,7 +187,7 @@ WMap(g) ==
         /\ dead' = [i \in Ids |-> TRUE]
         /\ th' = [th EXCEPT ![g].pc = "rel", ![g].res = "ok", ![g].ares = "ok"]
         /\ UNCHANGED <<exp, nextVer>>
-  /\ UNCHANGED <<cmuW, cmuR, emu>>
+  /\ UNCHANGED <<cmuW, cmuR, emu, cfgKey>>
 
 \* thread record after the current entry of a scan (Sweep / Dump) is finished
 Advance(t) ==
@@ -203,13 +215,13 @@ RMap(g) ==
                                                     !.snap = IF SwapMode(t) THEN map ELSE t.snap,
                                                     !.res = IF t.op = "Sweep" THEN 0 ELSE {},
                                                     !.ares = IF t.op = "Sweep" THEN 0 ELSE {}])]
-  /\ UNCHANGED <<map, cmd, exp, nextVer, cmuW, cmuR, emu, abs, dead>>
+  /\ UNCHANGED <<map, cmd, exp, nextVer, cmuW, cmuR, emu, abs, dead, cfgKey>>
 
 AcqE(g) ==
   /\ th[g].pc = "acqE" /\ emu[th[g].o] = Nobody
   /\ emu' = [emu EXCEPT ![th[g].o] = g]
   /\ th' = [th EXCEPT ![g].pc = "rexp1"]
-  /\ UNCHANGED <<map, cmd, exp, nextVer, cmuW, cmuR, abs, dead>>
+  /\ UNCHANGED <<map, cmd, exp, nextVer, cmuW, cmuR, abs, dead, cfgKey>>
 
 (* first half of the expiry read: the linearization point of the reading operations *)
 RExp1(g) ==
@@ -226,13 +238,13 @@ RExp1(g) ==
                                        [] t.op = "IsExpired" -> SeqIsExpired(abs, t.o)
                                        [] t.op = "Dump"      -> t.ares \cup {<<t.id, SeqDumpOne(abs, t.o)>>}
                                        [] t.op = "Sweep"     -> IF sweepNow THEN t.ares + SeqSweepOne(abs, t.id).removed ELSE t.ares]
-  /\ UNCHANGED <<map, cmd, exp, nextVer, cmuW, cmuR, emu, dead>>
+  /\ UNCHANGED <<map, cmd, exp, nextVer, cmuW, cmuR, emu, dead, cfgKey>>
 
 RExp2(g) ==
   LET t == th[g] IN
   /\ t.pc = "rexp2"
   /\ th' = [th EXCEPT ![g].pc = "relE", ![g].tmp = <<t.tmp[1], exp[t.o][2]>>]
-  /\ UNCHANGED <<map, cmd, exp, nextVer, cmuW, cmuR, emu, abs, dead>>
+  /\ UNCHANGED <<map, cmd, exp, nextVer, cmuW, cmuR, emu, abs, dead, cfgKey>>
 
 WExp1(g) ==
   LET t == th[g] IN
@@ -240,14 +252,14 @@ WExp1(g) ==
   /\ exp' = [exp EXCEPT ![t.o] = <<"live", @[2]>>]
   /\ abs' = SeqRenew(abs, t.o)
   /\ th' = [th EXCEPT ![g].pc = "wexp2"]
-  /\ UNCHANGED <<map, cmd, nextVer, cmuW, cmuR, emu, dead>>
+  /\ UNCHANGED <<map, cmd, nextVer, cmuW, cmuR, emu, dead, cfgKey>>
 
 WExp2(g) ==
   LET t == th[g] IN
   /\ t.pc = "wexp2"
   /\ exp' = [exp EXCEPT ![t.o] = <<@[1], "live">>]
   /\ th' = [th EXCEPT ![g].pc = "relE", ![g].res = "ok", ![g].ares = "ok"]
-  /\ UNCHANGED <<map, cmd, nextVer, cmuW, cmuR, emu, abs, dead>>
+  /\ UNCHANGED <<map, cmd, nextVer, cmuW, cmuR, emu, abs, dead, cfgKey>>
 
 (* release of e.mu (if held) and the decision taken on the value read *)
 RelE(g) ==
@@ -265,7 +277,7 @@ RelE(g) ==
          [] t.op = "Dump"      -> Advance([t EXCEPT !.res = @ \cup {<<t.id, Class(t.tmp)>>}])
          [] t.op = "IsExpired" -> Idle(t.n + 1)
          [] t.op = "Renew"     -> Idle(t.n + 1)]
-  /\ UNCHANGED <<map, cmd, exp, nextVer, cmuW, cmuR, abs, dead>>
+  /\ UNCHANGED <<map, cmd, exp, nextVer, cmuW, cmuR, abs, dead, cfgKey>>
 
 (* delete of an expired entry (LookupNonExpired, InvalidateExpired) *)
 Del(g) ==
@@ -274,7 +286,7 @@ Del(g) ==
   /\ map' = [map EXCEPT ![t.id] = NoObj]
   /\ th' = [th EXCEPT ![g] = IF t.op = "LookupNE" THEN [t EXCEPT !.pc = "rel"]
                              ELSE Advance([t EXCEPT !.res = @ + 1])]
-  /\ UNCHANGED <<cmd, exp, nextVer, cmuW, cmuR, emu, abs, dead>>
+  /\ UNCHANGED <<cmd, exp, nextVer, cmuW, cmuR, emu, abs, dead, cfgKey>>
 
 (* end of a scan *)
 Fin(g) ==
@@ -292,13 +304,13 @@ Fin(g) ==
         /\ cmuR' = cmuR \ {g}
         /\ th' = [th EXCEPT ![g].pc = "acqW2"]
         /\ UNCHANGED <<cmd, abs>>
-  /\ UNCHANGED <<map, exp, nextVer, cmuW, emu, dead>>
+  /\ UNCHANGED <<map, exp, nextVer, cmuW, emu, dead, cfgKey>>
 
 AcqW2(g) ==
   /\ th[g].pc = "acqW2" /\ CanW
   /\ cmuW' = g
   /\ th' = [th EXCEPT ![g].pc = "swap"]
-  /\ UNCHANGED <<map, cmd, exp, nextVer, cmuR, emu, abs, dead>>
+  /\ UNCHANGED <<map, cmd, exp, nextVer, cmuR, emu, abs, dead, cfgKey>>
 
 Swap(g) ==
   LET t == th[g]
@@ -312,7 +324,7 @@ Swap(g) ==
   /\ cmd' = [i \in Ids |-> cmd[i] /\ map'[i] # NoObj]
   /\ abs' = SeqSweepFinish(sweepAll[Ids].st)
   /\ th' = [th EXCEPT ![g].pc = "rel", ![g].ares = sweepAll[Ids].n]
-  /\ UNCHANGED <<exp, nextVer, cmuW, cmuR, emu, dead>>
+  /\ UNCHANGED <<exp, nextVer, cmuW, cmuR, emu, dead, cfgKey>>
 
 (* release c.mu and return *)
 Rel(g) ==
@@ -320,21 +332,49 @@ Rel(g) ==
   /\ cmuW' = IF cmuW = g THEN Nobody ELSE cmuW
   /\ cmuR' = cmuR \ {g}
   /\ th' = [th EXCEPT ![g] = Idle(th[g].n + 1)]
-  /\ UNCHANGED <<map, cmd, exp, nextVer, emu, abs, dead>>
+  /\ UNCHANGED <<map, cmd, exp, nextVer, emu, abs, dead, cfgKey>>
+
+(* A client handshake that was given the shared configuration object         *)
+(* (client.ConnectAndAuthenticateWithConfig -> security.NewAuthenticator).     *)
+(* Intended: it reads the shared object once (per-connection copy) and keeps   *)
+(* its ephemeral ECDH public key in the copy. Bug "HandshakeWritesSharedConfig" *)
+(* (today's client code): NewAuthenticator stores the key in the shared object *)
+(* and the handshake reads it back from there when it builds its ClassAd.      *)
+SharedCfgBug == "HandshakeWritesSharedConfig" \in Bug
+HCopy(g) ==
+  /\ th[g].pc = "hcopy"
+  /\ th' = [th EXCEPT ![g].pc = "hwkey"]
+  /\ UNCHANGED <<map, cmd, exp, nextVer, cmuW, cmuR, emu, cfgKey, abs, dead>>
+HWKey(g) ==
+  /\ th[g].pc = "hwkey"
+  /\ cfgKey' = IF SharedCfgBug THEN g ELSE cfgKey
+  /\ th' = [th EXCEPT ![g].pc = "hrkey", ![g].key = g]
+  /\ UNCHANGED <<map, cmd, exp, nextVer, cmuW, cmuR, emu, abs, dead>>
+HRKey(g) ==
+  /\ th[g].pc = "hrkey"
+  /\ th' = [th EXCEPT ![g].pc = "hret", ![g].res = IF SharedCfgBug THEN cfgKey ELSE th[g].key, ![g].ares = g]
+  /\ UNCHANGED <<map, cmd, exp, nextVer, cmuW, cmuR, emu, cfgKey, abs, dead>>
+HRet(g) ==
+  /\ th[g].pc = "hret"
+  /\ th' = [th EXCEPT ![g] = Idle(th[g].n + 1)]
+  /\ UNCHANGED <<map, cmd, exp, nextVer, cmuW, cmuR, emu, cfgKey, abs, dead>>
 
 Step(g) == \/ Begin(g) \/ WMap(g) \/ RMap(g) \/ AcqE(g) \/ RExp1(g) \/ RExp2(g)
            \/ WExp1(g) \/ WExp2(g) \/ RelE(g) \/ Del(g) \/ Fin(g) \/ AcqW2(g) \/ Swap(g) \/ Rel(g)
+           \/ HCopy(g) \/ HWKey(g) \/ HRKey(g) \/ HRet(g)
 Next == \E g \in Gor : Step(g)
 Spec == Init /\ [][Next]_vars
 
 (* role assignments used by the configurations (substituted for OpsOf) *)
-AllOps == CacheOpsId \cup CacheOpsAll \cup EntryOps
+AllOps == CacheOpsId \cup CacheOpsAll \cup EntryOps \cup OtherOps
 RolesAll  == [g \in Gor |-> AllOps]
 RolesCore == [g \in Gor |-> {"Store", "Lookup", "Invalidate", "Sweep", "Dump", "Renew"}]
 \* quick: a writer of the map, a user of entries, a maintenance goroutine
 RolesQuick == [g \in Gor |-> CASE g = "g1" -> {"Store", "Invalidate", "Sweep"}
                                [] g = "g2" -> {"Renew", "Lookup", "LookupNE"}
                                [] OTHER    -> {"Dump", "Sweep", "Renew", "Size"}]
+\* handshakes sharing one configuration object next to cache maintenance
+RolesHandshake == [g \in Gor |-> IF g = "g3" THEN {"Sweep", "Dump", "Renew"} ELSE {"Handshake", "Lookup", "Renew"}]
 \* thorough, second configuration: command mappings and the remaining methods
 RolesCmd == [g \in Gor |-> CASE g = "g1" -> {"MapCmd", "Invalidate", "Clear", "Store"}
                              [] g = "g2" -> {"LookupCmd", "LookupNE", "IsExpired", "Renew"}
@@ -342,9 +382,11 @@ RolesCmd == [g \in Gor |-> CASE g = "g1" -> {"MapCmd", "Invalidate", "Clear", "S
 
 -----------------------------------------------------------------------------
 (* the field-access relation: the access a goroutine is about to perform *)
-IsAccessPc(p) == p \in {"wmap", "rmap", "del", "swap", "rexp1", "rexp2", "wexp1", "wexp2"}
-AccField(g) == IF th[g].pc \in {"wmap", "rmap", "del", "swap"} THEN MapF ELSE ExpF(th[g].o)
-AccKind(g)  == IF th[g].pc \in {"wmap", "del", "swap", "wexp1", "wexp2"} THEN "w" ELSE "r"
+IsAccessPc(p) == \/ p \in {"wmap", "rmap", "del", "swap", "rexp1", "rexp2", "wexp1", "wexp2", "hcopy"}
+                 \/ p \in {"hwkey", "hrkey"} /\ SharedCfgBug
+AccField(g) == IF th[g].pc \in {"wmap", "rmap", "del", "swap"} THEN MapF
+               ELSE IF th[g].pc \in {"hcopy", "hwkey", "hrkey"} THEN CfgF ELSE ExpF(th[g].o)
+AccKind(g)  == IF th[g].pc \in {"wmap", "del", "swap", "wexp1", "wexp2", "hwkey"} THEN "w" ELSE "r"
 
 \* no two concurrent accesses to one field, one of them a write, without a common (exclusive) lock
 LocksetDiscipline ==
@@ -358,6 +400,7 @@ AccessRelationRespected ==
   \A g \in Gor : IsAccessPc(th[g].pc) =>
     IF AccField(g) = MapF
     THEN IF AccKind(g) = "w" THEN cmuW = g ELSE (cmuW = g \/ g \in cmuR)
+    ELSE IF AccField(g) = CfgF THEN AccKind(g) = "r"      \* the shared configuration is read-only
     ELSE emu[th[g].o] = g
 
 \* a completed read of the expiry saw both halves of one write
@@ -375,6 +418,9 @@ RefinesSeq ==
 
 \* every result is the one the sequential specification gives at the linearization point
 Linearizable == \A g \in Gor : th[g].pc = "rel" => th[g].res = th[g].ares
+
+\* handshakes sharing one configuration do not disturb one another: each sends its own key
+HandshakeUndisturbed == \A g \in Gor : th[g].pc = "hret" => th[g].res = th[g].ares
 
 \* no deadlock: somebody can move unless everybody is finished
 Progress == (\A g \in Gor : th[g].pc = "idle" /\ th[g].n = MaxOps) \/ ENABLED Next
